@@ -22,6 +22,7 @@ Reusable entry points (used by other property modules, e.g. C17):
   make_generator(name, vendor, acl_text, ops) -> synthetic PartialGenerator subclass interpreting an op list
   StubDevice(hw_model), StubStorage()         the stubs run_old_new uses
 """
+import os
 import random
 import re
 import textwrap
@@ -191,7 +192,7 @@ make_generator = _make_gen      # make_generator(name, vendor, acl_text, ops) ->
 
 
 def run_old_new(device_model, generators, config_text=None, add_implicit=False, acl=True, exclusive=True,
-                hostname="dev1", tags=None, acl_safe=False):
+                hostname="dev1", tags=None, acl_safe=False, filter_spec=None):
     """Run the real `annet.gen._old_new_per_device` for one stub CLI device and return its `OldNewResult`
     (`.old`, `.new`, `.err`, `.acl_rules`, `.partial_results`, `.implicit_rules`, ...).
 
@@ -208,7 +209,11 @@ def run_old_new(device_model, generators, config_text=None, add_implicit=False, 
     acl          : False = `--no-acl` (no own-ACL check, no merged ACL, no exclusivity check).
     exclusive    : False = `--no-acl-exclusive`.
 
-    Everything else is off: no acl_safe, no annotations, no filter ACL, no profiling, no Entire / JSON_FRAGMENT
+    filter_spec  : None = no filter option; dict(mode="stdin"|"file"|"ifaces"|"file+ifaces", text=..., ifaces=...):
+                   `--filter-acl -` with the text on stdin, `--filter-acl <file>` (a temporary file holding the text),
+                   `-i <pattern>` with a Filterer stub whose for_ifaces() returns `ifaces`, or both.
+
+    Everything else is off: no acl_safe, no annotations, no profiling, no Entire / JSON_FRAGMENT
     generators, no RefGenerators.  Exceptions of the real code (`GeneratorError`, `AclNotExclusiveError`, ...)
     propagate to the caller.  `setup_worker()` (connectors, logging off) is called first.
     """
@@ -233,12 +238,32 @@ def run_old_new(device_model, generators, config_text=None, add_implicit=False, 
     if config_text:
         config, stdin = "-", {"config": config_text, "filter_acl": None}
     else:
-        config, stdin = "empty", None
+        config, stdin = "empty", {"config": None, "filter_acl": None}
+    filterer = None
+    tmp = None
+    if filter_spec:
+        mode = filter_spec["mode"]
+        if mode == "stdin":
+            args.filter_acl = "-"
+            stdin["filter_acl"] = filter_spec["text"]
+        if mode in ("file", "file+ifaces"):
+            import tempfile
+            fd, tmp = tempfile.mkstemp(prefix="c10filter_", suffix=".acl")
+            with os.fdopen(fd, "w") as fh:
+                fh.write(filter_spec["text"])
+            args.filter_acl = tmp
+        if mode in ("ifaces", "file+ifaces"):
+            args.filter_ifaces = ["x"]
+            filterer = types.SimpleNamespace(for_ifaces=lambda device, pats: filter_spec["ifaces"])
     ctx = agen.OldNewDeviceContext(
         config=config, args=args, downloaded_files={}, failed_files={}, running={}, failed_running={},
         no_new=False, stdin=stdin, add_annotations=False, add_implicit=add_implicit, do_files_download=False,
         gens=dg, fetched_packages={}, failed_packages={}, device_count=1, do_print_perf=False)
-    return agen._old_new_per_device(ctx, dev, None)
+    try:
+        return agen._old_new_per_device(ctx, dev, filterer)
+    finally:
+        if tmp:
+            os.unlink(tmp)
 
 
 def run_real(case):
@@ -250,9 +275,15 @@ def run_real(case):
     model = VENDORS[vendor][0]
     if HardwareView(model, None).vendor != vendor:
         return {"err": "harness", "msg": "hardware stub resolves to %s" % HardwareView(model, None).vendor}
-    gens = [_make_gen(g["name"], vendor, g["acl"], g["ops"]) for g in case["gens"]]
+    full = case.get("kind") == "full"
+    # a generator written for another vendor only (no run_<vendor> / acl_<vendor>) does not support this device
+    gens = [_make_gen(g["name"], "routeros" if g.get("unsupported") else vendor, g["acl"], g["ops"]) for g in case["gens"]]
     try:
-        r = run_old_new(model, gens)
+        if full:
+            r = run_old_new(model, gens, config_text=render_config(case["old"]), acl=not case["no_acl"],
+                            exclusive=case["exclusive"], filter_spec=case["filter"])
+        else:
+            r = run_old_new(model, gens)
     except GeneratorError as e:
         c = e.__cause__
         cause = type(c).__name__
@@ -268,6 +299,8 @@ def run_real(case):
         return {"err": "AclNotExclusiveError", "msg": str(e)}
     if r.err:
         return {"err": "result.err", "msg": repr(r.err)[:200]}
+    if full:
+        return {"old": _tree(r.old), "new": _tree(r.new)}
     combined = raw_rules(_combine_acl_text(r.partial_results, lambda gr: gr.acl))
     return {"ok": _tree(r.new), "outputs": {n: p.output for n, p in r.partial_results.items()}, "combined": combined}
 
@@ -283,6 +316,157 @@ def impl(case):
         fmtr = registry_connector.get()[case["vendor"]].make_formatter()
         return {"ok": list(fmtr.split("\n".join(case["rows"]) + "\n"))}
     return run_real(case)
+
+
+
+# ----------------------------------------------------------------------------- kind=full: device config + filter ACL
+def render_config(tree, depth=0):
+    """the device's configuration text: one row per line, children one blank deeper"""
+    out = []
+    for row, ch in tree:
+        out.append(" " * depth + row + "\n")
+        out.append(render_config(ch, depth + 1))
+    return "".join(out)
+
+
+def filter_text(spec):
+    """what `build_filter_text` (gen.py:593-616) must hand over for the options of the case — written from the options'
+    meaning: the --filter-acl text, then (on a new line) what the Filterer returns for -i"""
+    mode = spec["mode"]
+    if mode in ("stdin", "file"):
+        return spec["text"]
+    if mode == "ifaces":
+        return spec["ifaces"]
+    return (spec["text"] + "\n" if spec["text"] else "") + spec["ifaces"]
+
+
+def _is_subtree(a, b):
+    """a is an order-preserving sub-tree of b"""
+    j = 0
+    for row, ch in a:
+        while j < len(b) and b[j][0] != row:
+            j += 1
+        if j == len(b) or not _is_subtree(ch, b[j][1]):
+            return False
+        j += 1
+    return True
+
+
+def _has_rules(text):
+    return any(l.strip() and not l.strip().startswith("#") for l in textwrap.dedent(text).split("\n"))
+
+
+def oracle_full(case, r):
+    """clauses that need no matcher: what leaves `_old_new_per_device` is a sub-tree of the device configuration / of
+    the generated rows; an ACL without a single rule (no generator provides one) and a requested filter without a
+    single rule pass nothing; plus, for simple filter rules, coverage by the independent matcher"""
+    if "old" not in r:
+        if r.get("err") in ("harness", "result.err") or str(r.get("err", "")).startswith("Unexpected"):
+            return [dict(sig="unexpected-result", what=_short(r))]
+        return []
+    vs = []
+    if not _is_subtree(r["old"], case["old"]):
+        vs.append(dict(sig="full.old-not-subtree-of-device-config", what="old=%s device=%s" % (r["old"], case["old"])))
+    live = [g for g in case["gens"] if not g.get("unsupported")]
+    if not case["no_acl"] and not any(_has_rules(g["acl"]) for g in live) and (r["old"] or r["new"]):
+        vs.append(dict(sig="full.empty-generator-acl-passes-lines",
+                       what="no generator provides an ACL rule, yet old=%s new=%s are passed on" % (r["old"], r["new"])))
+    f = case["filter"]
+    if f is not None:
+        ft = filter_text(f)
+        if not _has_rules(ft) and (r["old"] or r["new"]):
+            vs.append(dict(sig="full.empty-filter-passes-lines",
+                           what="a filter was requested (%s) and has no rule, yet old=%s new=%s are passed on"
+                                % (f["mode"], r["old"], r["new"])))
+        elif _has_rules(ft):
+            try:
+                rules = simple_rules(raw_rules(textwrap.dedent(ft)), VENDORS[case["vendor"]][1])
+            except Exception:
+                rules = None
+            if rules is not None:
+                for side in ("old", "new"):
+                    for pth in paths_of(r[side]):
+                        if simple_walk(rules, pth) is False:
+                            vs.append(dict(sig="full.filter-passes-uncovered-line",
+                                           what="%s keeps %s which the filter %r does not cover" % (side, pth, ft)))
+                            break
+    return vs
+
+
+def gen_full(rng):
+    c = gen_case(rng)
+    c["kind"] = "full"
+    reverse = VENDORS[c["vendor"]][1]
+    pools = [[_gen_row(rng, []) for _ in range(3)] for _ in range(3)]
+    pools[0] = ["interface " + rng.choice(VALS)] + pools[0][:2]
+    trees = []
+    for g in c["gens"]:
+        try:
+            trees.append(tree_of_paths(spec_paths(g["ops"], VENDORS[c["vendor"]][2])))
+        except Exception:
+            pass
+    # the device: some of what the generators produce, plus lines of its own
+    old = []
+    seen = set()
+    for row, ch in [n for t in trees for n in _as_list(t)] + _gen_tree(rng, pools) + _gen_tree(rng, pools):
+        if row in seen or rng.random() < 0.3 or not _plain(row):
+            continue
+        seen.add(row)
+        old.append([row, _dedup(rng, ch)])
+    rng.shuffle(old)
+    c["old"] = old
+    c["no_acl"] = rng.random() < 0.2
+    c["exclusive"] = rng.random() < 0.7
+    r = rng.random()
+    if r < 0.3:
+        # no generator provides an ACL rule: unsupported vendor, or a generator that yields and owns nothing
+        for g in c["gens"]:
+            if rng.random() < 0.5:
+                g["unsupported"] = True
+            else:
+                g["ops"] = []
+                g["acl"] = rng.choice(["", "\n", "    \n", "\n        # nothing here\n    "])
+    elif r < 0.4 and len(c["gens"]) > 1:
+        c["gens"][0]["unsupported"] = True
+    r = rng.random()
+    if r < 0.4:
+        c["filter"] = None
+    else:
+        src = old + [n for t in trees for n in _as_list(t)]
+        opts = dict(drop=0.5, cd=0.1, prio=0.05, **{"global": 0.1})
+        empty = rng.choice(["", "", "\n", "   \n", "# comment only\n", "\n    # x\n"])
+
+        def some_text():
+            if rng.random() < 0.3 or not src:
+                return empty
+            return _render_acl(rng, _acl_lines(rng, src, reverse, opts)) or empty
+        mode = rng.choice(["stdin", "file", "file", "ifaces", "ifaces", "file+ifaces"])
+        text, ifaces = some_text(), some_text()
+        if mode == "stdin" and not text:
+            mode = "file"       # `--filter-acl -` with nothing on stdin is not a filter text but a file name
+        if mode == "file+ifaces" and text.strip() and ifaces.strip():
+            # two texts joined by a newline must share a margin to be one ACL text
+            text, ifaces = textwrap.dedent(text).strip("\n"), textwrap.dedent(ifaces).strip("\n")
+        c["filter"] = dict(mode=mode, text=text, ifaces=ifaces)
+    return c
+
+
+def _as_list(t):
+    return [[k, _as_list(v)] for k, v in t.items()] if isinstance(t, dict) else t
+
+
+def _plain(row):
+    return bool(re.fullmatch(r"[A-Za-z0-9./_-]+( [A-Za-z0-9./_-]+)*", row)) and not row.startswith(POLICY_END)
+
+
+def _dedup(rng, nodes):
+    out, seen = [], set()
+    for row, ch in nodes:
+        if row in seen or not _plain(row):
+            continue
+        seen.add(row)
+        out.append([row, _dedup(rng, ch)])
+    return out
 
 
 # ----------------------------------------------------------------------------- model adapters
@@ -321,19 +505,29 @@ def requests(case):
     gens = []
     try:
         for g in case["gens"]:
+            if g.get("unsupported"):
+                continue        # `supports_device` is false: the generator is not run and contributes no ACL
             gens.append(dict(name=g["name"], ops=_mops(g["ops"]), acl=raw_rules(textwrap.dedent(g["acl"]))))
+        flt = None
+        if kind == "full" and case["filter"] is not None:
+            flt = raw_rules(textwrap.dedent(filter_text(case["filter"])))
     except Exception:
         return []
     v = VENDORS[case["vendor"]]
+    if kind == "full":
+        return [dict(op="c10.oldnewfull", vendor=dict(reverse=v[1], juniper=False), splitter=v[2], gens=gens,
+                     no_acl=case["no_acl"], exclusive=case["exclusive"], filter=flt, old=case["old"])]
     return [dict(op="c10.oldnew", vendor=dict(reverse=v[1], juniper=False), splitter=v[2], gens=gens)]
 
 
 def model(case, resp):
     r = resp[0]
-    if case.get("kind", "run") != "run":
+    if case.get("kind", "run") not in ("run", "full"):
         return r
     if r.get("grammar") is False:
         return {"skip": True}
+    if "old" in r:
+        return {"old": r["old"], "new": r["new"]}
     if "ok" in r:
         return {"ok": r["ok"], "outputs": {e[0]: "\n".join(e[1]) + "\n" for e in r["rows"] if e},
                 "combined": r["combined"]}
@@ -895,6 +1089,8 @@ def oracle(case, r):
         return [] if good else [dict(sig="split-and-strip", what="_split_and_strip(%r) = %r" % (t, r))]
     if kind == "split":
         return []
+    if kind == "full":
+        return oracle_full(case, r)
     # malformed ACL texts (only shrinking produces them) are outside the property's domain
     try:
         for g in case["gens"]:
@@ -945,10 +1141,12 @@ def shards(tier, seed):
         out = [dict(kind="run", seed=seed * 1000 + i, n=1000) for i in range(48)]
         out += [dict(kind="unit", seed=seed * 1000 + 500 + i, n=4000) for i in range(8)]
         out += [dict(kind="exh", part=i, parts=8) for i in range(8)]
+        out += [dict(kind="full", seed=seed * 1000 + 700 + i, n=250) for i in range(8)]
     else:
         out = [dict(kind="run", seed=seed * 1000 + i, n=5000) for i in range(96)]
         out += [dict(kind="unit", seed=seed * 1000 + 500 + i, n=40000) for i in range(16)]
         out += [dict(kind="exh", part=i, parts=16, deep=True) for i in range(16)]
+        out += [dict(kind="full", seed=seed * 1000 + 700 + i, n=4000) for i in range(16)]
     return out
 
 
@@ -1217,7 +1415,7 @@ def gen(desc):
         return
     rng = random.Random(desc["seed"])
     for _ in range(desc["n"]):
-        yield gen_case(rng) if desc["kind"] == "run" else gen_unit(rng)
+        yield gen_case(rng) if desc["kind"] == "run" else gen_full(rng) if desc["kind"] == "full" else gen_unit(rng)
 
 
 # ----------------------------------------------------------------------------- evidence labels, shrinking
@@ -1237,6 +1435,8 @@ def _count_ops(ops):
 
 
 def nontrivial(case, r):
+    if case.get("kind") == "full":
+        return len(paths_of(case["old"])) >= 3 and (case["filter"] is not None or any(g.get("unsupported") for g in case["gens"]))
     if case.get("kind", "run") != "run":
         return len(case.get("text", "")) > 3 or len(case.get("rows", [])) > 1
     tot = [_count_ops(g["ops"]) for g in case["gens"]]
@@ -1246,6 +1446,22 @@ def nontrivial(case, r):
 
 def stats(case, r):
     kind = case.get("kind", "run")
+    if kind == "full":
+        f = case["filter"]
+        live = [g for g in case["gens"] if not g.get("unsupported")]
+        lab = ["full", "full:vendor=" + case["vendor"], "full:filter=" + (f["mode"] if f else "none"),
+               "full:no_acl=%d" % case["no_acl"], "full:exclusive=%d" % case["exclusive"],
+               "full:generators-with-acl-rules=%d" % sum(1 for g in live if _has_rules(g["acl"])),
+               "full:unsupported-generators=%d" % (len(case["gens"]) - len(live))]
+        if f:
+            lab.append("full:filter-has-rules=%d" % _has_rules(filter_text(f)))
+        if "old" in r:
+            lab.append("full:result=ok")
+            lab.append("full:old-kept=%s" % ("none" if not r["old"] else "all" if r["old"] == case["old"] else "part"))
+            lab.append("full:new-lines=%d" % min(10, len(paths_of(r["new"]))))
+        else:
+            lab.append("full:result=%s%s" % (r.get("err"), "/" + r["cause"] if "cause" in r else ""))
+        return lab
     if kind != "run":
         return ["unit=" + kind]
     lab = ["vendor=" + case["vendor"], "generators=%d" % len(case["gens"])]
@@ -1279,6 +1495,25 @@ def stats(case, r):
 
 
 def shrink_candidates(case):
+    if case.get("kind") == "full":
+        gens = case["gens"]
+        for i in range(len(gens)):
+            yield dict(case, gens=gens[:i] + gens[i + 1:])
+        old = case["old"]
+        for i in range(len(old)):
+            yield dict(case, old=old[:i] + old[i + 1:])
+            if old[i][1]:
+                yield dict(case, old=old[:i] + [[old[i][0], []]] + old[i + 1:])
+        if case["filter"] is not None:
+            f = case["filter"]
+            for k in ("text", "ifaces"):
+                ls = [l for l in f[k].split("\n") if l.strip()]
+                for i in range(len(ls)):
+                    yield dict(case, filter=dict(f, **{k: "\n".join(ls[:i] + ls[i + 1:]) + ("\n" if len(ls) > 1 else "")}))
+        for gi, g in enumerate(gens):
+            if g["ops"]:
+                yield dict(case, gens=gens[:gi] + [dict(g, ops=g["ops"][:-1])] + gens[gi + 1:])
+        return
     if case.get("kind", "run") != "run":
         if "text" in case:
             t = case["text"]
